@@ -159,6 +159,65 @@ def run : St → List Act → Option St
     | some s' => run s' as
     | none => none
 
+/-- the channel whose *call* (`Join` / `Leave` and their outcomes) an action belongs to; presences,
+messages and unrelated stanzas are the room's -/
+def Act.callOf : Act → Option Nat
+  | .joinStart c _ | .joinError c | .joinCancel c | .joinCleanup c => some c
+  | .leaveStart c | .leaveDepart c | .leaveError c | .leaveCancel c => some c
+  | _ => none
+
+/-! ### The muc#user payload of a presence (`muc/types.go`)
+
+`Client.handlePresence` decodes the whole payload *before* it looks at the presence type, so a
+payload that fails to decode is a presence that is not processed (the handler returns the
+error).  What can fail is the decoding of the two enumerated attributes of `<item/>`:
+`Affiliation.UnmarshalXMLAttr` and `Role.UnmarshalXMLAttr` accept exactly the names of XEP-0045
+(the `String()` of the constants); an absent attribute leaves the zero value (`none`).  The
+actions `avail` / `unavail` of the LTS stand for presences whose payload decodes; `decodeItem`
+says which those are, and the theorems of `Props/C18.lean` show that every payload built from
+the names of XEP-0045 is among them (the tables are tied to the code by probe facts). -/
+
+inductive Aff | none | owner | admin | member | outcast
+  deriving DecidableEq, Repr, Inhabited
+
+inductive Role | none | moderator | participant | visitor
+  deriving DecidableEq, Repr, Inhabited
+
+def Aff.all : List Aff := [.none, .owner, .admin, .member, .outcast]
+def Role.all : List Role := [.none, .moderator, .participant, .visitor]
+
+def Aff.name : Aff → String
+  | .none => "none" | .owner => "owner" | .admin => "admin" | .member => "member" | .outcast => "outcast"
+def Role.name : Role → String
+  | .none => "none" | .moderator => "moderator" | .participant => "participant" | .visitor => "visitor"
+
+/-- the numeric value of the Go constant (`iota` order of the declaration) -/
+def Aff.code : Aff → Nat
+  | .none => 0 | .owner => 1 | .admin => 2 | .member => 3 | .outcast => 4
+def Role.code : Role → Nat
+  | .none => 0 | .moderator => 1 | .participant => 2 | .visitor => 3
+
+def parseAff (s : String) : Option Aff := Aff.all.find? fun a => a.name == s
+def parseRole (s : String) : Option Role := Role.all.find? fun r => r.name == s
+
+/-- `<item affiliation=… role=…/>` as sent: attribute values, `none` = attribute absent -/
+structure Item where
+  aff : Option String
+  role : Option String
+  deriving DecidableEq, Repr
+
+def decodeItem (i : Item) : Option (Aff × Role) :=
+  match (match i.aff with | none => some Aff.none | some s => parseAff s),
+        (match i.role with | none => some Role.none | some s => parseRole s) with
+  | some a, some r => some (a, r)
+  | _, _ => none
+
+/-- attribute values the probe facts evaluate the real decoders on: every name of either
+enumeration (so also each name in the *other* attribute), and near misses -/
+def probeNames : List String :=
+  ["none", "owner", "admin", "member", "outcast", "moderator", "participant", "visitor",
+   "", "None", "OUTCAST", "outcast ", " none", "outcas", "outcasts", "0", "4", "bogus"]
+
 inductive Reach (addr0 : Nat → Nat) : St → Prop
   | init : Reach addr0 (init addr0)
   | step {s s' a} : Reach addr0 s → step s a = some s' → Reach addr0 s'
